@@ -18,14 +18,25 @@ after every dependency bound.
 namespace SP.C04
 open SP
 
-/-- the bound dominates every edge -/
-theorem bound_ge_every_dep (σ : St) (deps : List Dep) (base : Int) (dp : Dep) (hd : dp ∈ deps) (dt : Int)
+/-- the bound dominates every edge: (start | end of the predecessor) + gapduration -/
+theorem bound_ge_every_dep (e : Env) (wf : WF e) (σ : St) (deps : List Dep) (base : Int) (dp : Dep) (hd : dp ∈ deps) (dt : Int)
     (hdt : (if dp.onstart then (σ.tst dp.target).start else (σ.tst dp.target).stop) = some dt) :
-    dt + dp.gap ≤ earliestStart σ deps base := earliestStart_ge_dep σ deps base dp hd dt hdt
+    dt + dp.gap ≤ earliestStart e σ deps base := earliestStart_ge_dep e wf.G_pos σ deps base dp hd dt hdt
+
+/-- … and, for an edge with a `gaplength`, the instant at which that much working time of the project calendar has passed
+    since the predecessor's date (`depDate`) -/
+theorem bound_ge_every_depDate (e : Env) (σ : St) (deps : List Dep) (base : Int) (dp : Dep) (hd : dp ∈ deps) (dt : Int)
+    (hdt : (if dp.onstart then (σ.tst dp.target).start else (σ.tst dp.target).stop) = some dt) :
+    depDate e dp dt ≤ earliestStart e σ deps base := earliestStart_ge_depDate e σ deps base dp hd dt hdt
+
+/-- a `gaplength` only moves the date on: never before the predecessor's date plus the gap duration (finding F54: the pinned
+    code counted whole slots from the START of the slot the predecessor ended in, so the successor could start before it ended) -/
+theorem gaplength_never_earlier (e : Env) (wf : WF e) (dp : Dep) (dt : Int) : dt + dp.gap ≤ depDate e dp dt :=
+  depDate_ge e wf.G_pos dp dt
 
 /-- … and the project start / an inherited container start -/
-theorem bound_ge_base (σ : St) (deps : List Dep) (base : Int) : base ≤ earliestStart σ deps base :=
-  earliestStart_ge σ deps base
+theorem bound_ge_base (e : Env) (σ : St) (deps : List Dep) (base : Int) : base ≤ earliestStart e σ deps base :=
+  earliestStart_ge e σ deps base
 
 /-- cursor + offset = bound, exactly -/
 theorem cursor_reconstructs_bound (e : Env) (wf : WF e) (x : Int) (hx : e.start ≤ x) :
@@ -42,12 +53,12 @@ theorem start_ge_bound (e : Env) (wf : WF e) (x : Int) (hx : e.start ≤ x) (cur
 theorem forward_start_respects_dep (e : Env) (wf : WF e) (σ : St) (t : Nat) (dp : Dep)
     (hd : dp ∈ (e.taskD t).allDeps) (dt : Int)
     (hdt : (if dp.onstart then (σ.tst dp.target).start else (σ.tst dp.target).stop) = some dt)
-    (cur : Int) (hc : (cursorOf e (earliestStart σ (e.taskD t).allDeps e.start)).1 ≤ cur) :
+    (cur : Int) (hc : (cursorOf e (earliestStart e σ (e.taskD t).allDeps e.start)).1 ≤ cur) :
     ((dt + dp.gap : Int) : Rat) ≤
-      ((e.time cur : Int) : Rat) + (cursorOf e (earliestStart σ (e.taskD t).allDeps e.start)).2 := by
-  have h1 := earliestStart_ge_dep σ (e.taskD t).allDeps e.start dp hd dt hdt
-  have h2 := slot_ge_bound e wf _ (earliestStart_ge σ (e.taskD t).allDeps e.start) cur hc
-  have : ((dt + dp.gap : Int) : Rat) ≤ ((earliestStart σ (e.taskD t).allDeps e.start : Int) : Rat) := by exact_mod_cast h1
+      ((e.time cur : Int) : Rat) + (cursorOf e (earliestStart e σ (e.taskD t).allDeps e.start)).2 := by
+  have h1 := earliestStart_ge_dep e wf.G_pos σ (e.taskD t).allDeps e.start dp hd dt hdt
+  have h2 := slot_ge_bound e wf _ (earliestStart_ge e σ (e.taskD t).allDeps e.start) cur hc
+  have : ((dt + dp.gap : Int) : Rat) ≤ ((earliestStart e σ (e.taskD t).allDeps e.start : Int) : Rat) := by exact_mod_cast h1
   grind
 
 /-- readiness: a forward task is picked only when every task in `allDeps` is scheduled -/
@@ -68,7 +79,7 @@ theorem task_start_respects_deps (e : Env) (wf : WF e) (σ : St) (t : Nat) (hel 
     (hdt : dateOf σ dp = some dt) :
     ∃ v, ((scheduleTask e σ t).1.tst t).start = some v ∧ dt + dp.gap ≤ v := by
   obtain ⟨v, hv, hle⟩ := scheduleTask_start_ge e wf σ t hb hf hel.nostart hel.alloc hel.nomile hel.effort hnd hok
-  exact ⟨v, hv, Int.le_trans (boundOf_ge_dep e σ t dp hd dt hdt) hle⟩
+  exact ⟨v, hv, Int.le_trans (boundOf_ge_dep e wf σ t dp hd dt hdt) hle⟩
 
 /-- **C04 for whole projects (forward mode)**: after scheduling ANY well-formed project, every forward effort task
     without a start of its own that is reported as scheduled starts at or after `(start | end) + gap` of every leaf
@@ -79,9 +90,10 @@ theorem forward_deps_respected (e : Env) (wf : WF e) (t : Nat) (hel : FwdEff e t
     (hs : ((runScenario e).tst t).scheduled = true) (hf : ((runScenario e).tst t).forward = true)
     (dp : Dep) (hd : dp ∈ (e.taskD t).allDeps) (hx : (e.taskD dp.target).leaf = true) :
     ((runScenario e).tst dp.target).scheduled = true ∧
-    ∀ dt v, dateOf (runScenario e) dp = some dt → ((runScenario e).tst t).start = some v → dt + dp.gap ≤ v :=
-  runScenario_depsOK e wf t hel
+    ∀ dt v, dateOf (runScenario e) dp = some dt → ((runScenario e).tst t).start = some v → dt + dp.gap ≤ v := by
+  obtain ⟨h1, h2⟩ := runScenario_depsOK e wf t hel
     (runScenario_scheduled_done e t ⟨hel.leaf, hel.effort, hel.nomile⟩ hs) hf dp hd hx
+  exact ⟨h1, fun dt v hdt hv => Int.le_trans (depDate_ge e wf.G_pos dp dt) (h2 dt v hdt hv)⟩
 
 /-- the same for the environment elaborated from a project description, under the decidable check -/
 theorem forward_deps_respected_elab (p : RawProj) (h : wfCheck (elaborate p).env = true) (t : Nat)
@@ -104,9 +116,40 @@ theorem forward_deps_respected_all (e : Env) (wf : WF e) (tr : Tree e) (t : Nat)
     (hs : ((runScenario e).tst t).scheduled = true) (hf : ((runScenario e).tst t).forward = true)
     (dp : Dep) (hd : dp ∈ (e.taskD t).allDeps) :
     ((runScenario e).tst dp.target).scheduled = true ∧
-    ∀ dt v, dateOf (runScenario e) dp = some dt → ((runScenario e).tst t).start = some v → dt + dp.gap ≤ v :=
+    ∀ dt v, dateOf (runScenario e) dp = some dt → ((runScenario e).tst t).start = some v → dt + dp.gap ≤ v := by
+  obtain ⟨h1, h2⟩ := runScenario_depsOKAll e wf tr t hel
+    (runScenario_scheduled_done e t ⟨hel.leaf, hel.effort, hel.nomile⟩ hs) hf dp hd
+  exact ⟨h1, fun dt v hdt hv => Int.le_trans (depDate_ge e wf.G_pos dp dt) (h2 dt v hdt hv)⟩
+
+/-- **… and working-time gaps** (`gaplength`): the same with the full date the edge contributes — for an edge with a
+    `gaplength` (and no gap duration) the instant at which that much working time of the project calendar has passed since
+    the predecessor's end (start, for an on-start edge), `depDate`; for every other edge `(start | end) + gap` as above.
+    `gaplength_never_earlier` relates the two: a working-time gap never lets the task start before the predecessor's date. -/
+theorem forward_deps_respected_gaplength (e : Env) (wf : WF e) (tr : Tree e) (t : Nat) (hel : FwdEff e t)
+    (hs : ((runScenario e).tst t).scheduled = true) (hf : ((runScenario e).tst t).forward = true)
+    (dp : Dep) (hd : dp ∈ (e.taskD t).allDeps) :
+    ((runScenario e).tst dp.target).scheduled = true ∧
+    ∀ dt v, dateOf (runScenario e) dp = some dt → ((runScenario e).tst t).start = some v → depDate e dp dt ≤ v :=
   runScenario_depsOKAll e wf tr t hel
     (runScenario_scheduled_done e t ⟨hel.leaf, hel.effort, hel.nomile⟩ hs) hf dp hd
+
+/-- what `depDate` is for an edge with a working-time gap of `n > 0` seconds and no gap duration: the walk over the project
+    calendar from the slot the predecessor's date lies in -/
+theorem depDate_gaplength (e : Env) (dp : Dep) (dt : Int) (hn : dp.glen > 0) (hg : dp.gap = 0) :
+    depDate e dp dt = lenWalk e (e.size.toNat + 2) dp.glen (e.idx dt) dt := by
+  unfold depDate; simp [hn, hg]
+
+/-- one step of that walk, spelled out: in a working slot of the project calendar the time from the date to the end of the slot
+    counts; if it covers what is left of the gap, the bound is the date plus what is left; otherwise the walk goes on from
+    the start of the next slot with the rest; a non-working slot is passed over; at the horizon the walk stops -/
+theorem lenWalk_step (e : Env) (f : Nat) (rem i dt : Int) :
+    lenWalk e (f + 1) rem i dt =
+      if rem > 0 && i ≤ e.upper then
+        if e.projWork i then
+          if e.G - (dt - e.time i) ≥ rem then dt + rem
+          else lenWalk e f (rem - (e.G - (dt - e.time i))) (i + 1) (e.time (i + 1))
+        else lenWalk e f rem (i + 1) (e.time (i + 1))
+      else dt := rfl
 
 theorem forward_deps_respected_all_elab (p : RawProj) (h : wfCheck (elaborate p).env = true)
     (htr : treeCheck (elaborate p).env = true) (t : Nat) (hel : FwdEff (elaborate p).env t)
@@ -126,8 +169,9 @@ theorem forward_deps_respected_milestones (e : Env) (wf : WF e) (tr : Tree e) (t
     (hd : ((runScenario e).tst t).done = true) (hf : ((runScenario e).tst t).forward = true)
     (dp : Dep) (hdp : dp ∈ (e.taskD t).allDeps) :
     ((runScenario e).tst dp.target).scheduled = true ∧
-    ∀ dt v, dateOf (runScenario e) dp = some dt → ((runScenario e).tst t).start = some v → dt + dp.gap ≤ v :=
-  runScenario_depsOKAny e wf tr t (Or.inr hel) hd hf dp hdp
+    ∀ dt v, dateOf (runScenario e) dp = some dt → ((runScenario e).tst t).start = some v → depDate e dp dt ≤ v ∧ dt + dp.gap ≤ v := by
+  obtain ⟨h1, h2⟩ := runScenario_depsOKAny e wf tr t (Or.inr hel) hd hf dp hdp
+  exact ⟨h1, fun dt v hdt hv => ⟨h2 dt v hdt hv, Int.le_trans (depDate_ge e wf.G_pos dp dt) (h2 dt v hdt hv)⟩⟩
 
 /-- a milestone the loop placed is dated exactly at its dependency bound (start = end) -/
 theorem milestone_placed_at_bound (e : Env) (wf : WF e) (σ : St) (t : Nat) (hb : t < σ.ts.size)
@@ -149,6 +193,27 @@ example : FwdEff (elaborate gapProj).env 1 :=
   ⟨by decide +kernel, by decide +kernel, by decide +kernel, by decide +kernel, by decide +kernel⟩
 example : ((elaborate gapProj).env.taskD 1).allDeps.length = 1 ∧
     ∀ dp ∈ ((elaborate gapProj).env.taskD 1).allDeps, ((elaborate gapProj).env.taskD dp.target).leaf = true := by
+  decide +kernel
+
+/-- non-vacuity and the witness of finding F54: a (80 min, resource 0) ends at 10:20 on Monday 2025-01-06 (the driver's run of this project: start of b = 10:50); b (2 h, resource 1)
+    depends on it with `gaplength 30min`; the bound of b is 10:50 — thirty minutes of project working time after 10:20 —
+    not 10:00, where the pinned code put it -/
+def lenProj : RawProj :=
+  { G := 3600, start := 1736121600, stop := 1737331200,
+    res := [{}, {}],
+    tasks := [{ effort := some (4/3), alloc := some ([0], []) },
+              { effort := some 2, alloc := some ([1], []), deps := [{ target := 0, glen := 1800, hasOpts := true }] }] }
+
+example : wfCheck (elaborate lenProj).env = true := by decide +kernel
+
+/-- (dates in the elaborated environment are relative to the project start) the bound of b: 10:20 + 30 min of working time -/
+example : depDate (elaborate lenProj).env { target := 0, glen := 1800, hasOpts := true } (10 * 3600 + 1200) = 10 * 3600 + 3000 := by
+  decide +kernel
+/-- … across the end of the working day: `gaplength 2h` after 16:20 is 10:20 the next morning -/
+example : depDate (elaborate lenProj).env { target := 0, glen := 7200, hasOpts := true } (16 * 3600 + 1200) = 34 * 3600 + 1200 := by
+  decide +kernel
+/-- … and a gap that ends exactly with the working day gives 17:00, not the next morning -/
+example : depDate (elaborate lenProj).env { target := 0, glen := 3600, hasOpts := true } (16 * 3600) = 17 * 3600 := by
   decide +kernel
 
 /-! ### backward mode, one task end to end -/
